@@ -58,6 +58,19 @@ CLAIMS = {
     'C18': ('Lean 4 theorems on a hand-written model of the WSGI script (escape safety/injectivity, page structure, status 200 under stated assumptions), differential run, in-process search on the real application',
             'Proof on the hand-written model Spec.Wsgi; tie = tools/corr/wsgi.py (escape, template formatting, format(), application end-to-end with '
             'synthetic module tables). parse_qs and the WSGI server are outside the model (named partial).', '§4 C18', ''),
+    'C02': ('Lean 4 theorems on the regenerated model (per module, partial-correctness Hoare triple closed by the VC tactic: validate x = ok v -> validate v = ok v, and v has no outer whitespace), differential run, failing-input search re-feeding every accepted output under every option',
+            'Proof for the modules listed in obligations/C02.json (family C02f; all strings, all option values, all dates) on definitions regenerated from the current source; '
+            'the remaining modules (listed as uncovered in the evidence) are covered by the search only; twelve call sites where the statement is false of the code are known findings.', '§4 C02, §8', ''),
+    'C09': ('Lean 4 theorems on the regenerated wrappers (eu.vat = member validator through the tabulated dispatch for all 31 prefixes and every string, guess_country/guess_type = filter of the table, us.tin/th.tin/be.ssn = first-match union, es.nif superset, iban = generic rules and national module) with kernel-evaluated dispatch tables; differential run; failing-input search per (wrapper, constituent) relation',
+            'Proof for the relations listed in obligations/C09.json, all strings, on definitions regenerated from the current source (get_cc_module is tabulated from the running interpreter on every run). '
+            'vatin.validate is not translated: vatin >= eu.vat is proved at the dispatch-table level and otherwise covered by the search only. Prefix re-attachment for a national number that itself starts '
+            'with the country code is false of the code (proved witness; known finding).', '§4 C09, §8', ''),
+    'C11': ('Lean 4 kernel evaluation over trees regenerated from the shipped registry files on every run (structure, line round-trip, well-formedness or the exact list of defects, reachability of every entry) lifted by general theorems proved for all trees (reachable_of_WF, reachable_except); consumer theorems on the regenerated code (IBAN structure table and witnesses, ISBN five-part split for every range, info() getters); differential run of the Lean reader against numdb.read; failing-input search over all 17 files',
+            'Proof for 15 of the 17 registries (all but oui.dat and gs1_ai.dat, whose size or consumer is outside the kernel-evaluated model; search and the C16 table facts cover those): every line, exhaustive. '
+            'For seven large registries the tree is tied to the Lean reader by the native differential run only (no kernel-proved link, hence no consumer theorem). Known data defects are pinned as exact lists, so a new one breaks a proof.', '§4 C11, §8', ''),
+    'C15': ('Lean 4 theorems on the regenerated model (per module, partial-correctness Hoare triple closed by the VC tactic: validate x = ok v -> every character of v is ASCII), differential run, failing-input search substituting every foreign digit/letter class at every position',
+            'Proof for the modules listed in obligations/C15.json (family C15a; all strings, all option values, all dates) on definitions regenerated from the current source; '
+            'the other identifier modules are covered by the search only (listed as uncovered); three call sites are known findings.', '§4 C15, §8', ''),
 }
 
 REASON_PENDING = 'check not yet registered (build in progress: machinery exists under tools/ but is not yet free of open triage on the unchanged tree)'
